@@ -37,10 +37,10 @@ of the theorems, state by state (`driver_model_is_core_model`).  Of the extensio
     code by the correspondence run and judged by the oracle (Async/SpecExt.lean) only — no theorem.
 
 Not modelled at all (fidelity limits, also in the harness ASSUMPTIONS):
-  * reference identity: every assignment installs a FRESH reference (named by the id of its first
-    task), as the harness does (a new function object per assignment); Python's still-current check
-    is object identity (`refs.get(pname) is not ref`), so assigning the SAME function object twice
-    lets the first, not yet started task pass the check — outside the model;
+  * reference identity: in the model of the theorems every assignment installs a FRESH reference
+    (named by the id of its first task); assigning the SAME function object again (Python's
+    still-current check is `refs.get(pname) is not ref`) exists in Async/ModelExt.lean only
+    (`again`), like `obj.param.trigger` (`trigC`, `trigP`) — correspondence and oracle, no theorem;
   * constructor-time references (`initialized=False`: `_async_ref` re-scheduling itself,
     `_resolve_ref` not installing the link): the object is initialised before the first event;
   * awaitables that raise (`Skip` included), `set_exception` / cancellation of the hand-made future
